@@ -1,21 +1,1142 @@
-//! Monitor for property C02 (see /verif/DESIGN.md §6).
+//! Monitor for property C02: macro parameters bind and substitute exactly as in TeX.
+//! (design: /verif/DESIGN.md §6 C02; notes: ../NOTES.md)
+//!
+//! Per call of a generated macro the real VM is observed at two public places:
+//!   * `TexlangState::post_macro_expansion_hook` (recorded by vstate as `Event::Macro`): the bound
+//!     arguments and the expansion, as token values;
+//!   * the character handler: the character stream produced by the expansion *and by the tokens
+//!     that follow the call* (a tail with a marker, a group and a further macro call), plus the
+//!     outcome of `VM::run` and the group depth afterwards.
+//! The oracle is `vmodels::macrocall` (transcription of TeX §473-§477 and §389-§399) together with
+//! a trivial executor for the delivered tokens. A second, declarative formulation of argument
+//! binding must agree with the transcription on every call, else the call is INCONCLUSIVE.
+
 use vcore::*;
+use vmodels::macrocall::{
+    declarative_call_spans, drop_unlexable_spaces, expand_all, lex_line, macro_call, parse_def,
+    render, to_source, Call, MacroDef, Pat, Tok, TrimRule,
+};
+use vstate::{Event, Outcome, VmOptions};
 
 pub struct M;
 pub static MONITOR: M = M;
+
+const FINDING_TRIM: &str = "C02-trim-braces-first-last";
+
+type Ev = (String, Vec<String>, String);
+type Vm = Box<vstate::texlang::vm::VM<vstate::VState>>;
+
+fn ch(c: char) -> Tok {
+    Tok::Ch(c)
+}
+fn cs(n: &str) -> Tok {
+    Tok::cs(n)
+}
+fn grp(inner: &[Tok]) -> Vec<Tok> {
+    let mut v = vec![Tok::Begin];
+    v.extend_from_slice(inner);
+    v.push(Tok::End);
+    v
+}
+fn cat(parts: &[&[Tok]]) -> Vec<Tok> {
+    parts.iter().flat_map(|p| p.iter().cloned()).collect()
+}
+
+/// A line of source under construction. Space tokens that TeX's lexer could not produce at the
+/// position where they would land (after a control word, after a space, at the start of the
+/// line) are dropped *here*, so that the token list the model sees is exactly what the real
+/// lexer will produce from the rendered text.
+struct Line {
+    toks: Vec<Tok>,
+    skip: bool,
+}
+
+impl Line {
+    fn new() -> Line {
+        Line {
+            toks: vec![],
+            skip: true,
+        }
+    }
+    /// Append; returns what was actually appended.
+    fn push(&mut self, piece: &[Tok]) -> Vec<Tok> {
+        let kept = drop_unlexable_spaces(piece, self.skip);
+        if let Some(last) = kept.last() {
+            self.skip = matches!(last, Tok::Cs(_) | Tok::Space);
+        }
+        self.toks.extend(kept.iter().cloned());
+        kept
+    }
+}
+
+/// A macro definition as generated.
+struct Spec {
+    /// tokens before the macro name: `\def`, `\gdef`, `\long\def`, `\global\def`
+    def_kw: Vec<Tok>,
+    name: Tok,
+    prefix: Vec<Tok>,
+    /// delimiter of each parameter as written (empty = undelimited)
+    delims: Vec<Vec<Tok>>,
+    hash_brace: bool,
+    /// replacement text as written (with `#` tokens)
+    body: Vec<Tok>,
+}
+
+struct SpecInst {
+    name: Tok,
+    def_src: String,
+    def: MacroDef,
+    /// effective delimiter of each parameter (with the `{` of `#{` appended to the last one)
+    eff_delims: Vec<Vec<Tok>>,
+    hash_brace: bool,
+}
+
+impl Spec {
+    fn instantiate(&self) -> Result<SpecInst, String> {
+        let mut line = Line::new();
+        line.push(&self.def_kw);
+        line.push(std::slice::from_ref(&self.name));
+        let start = line.toks.len();
+        line.push(&self.prefix);
+        for (i, d) in self.delims.iter().enumerate() {
+            line.push(&[Tok::Param, ch(char::from(b'1' + i as u8))]);
+            line.push(d);
+        }
+        if self.hash_brace {
+            line.push(&[Tok::Param]);
+        }
+        line.push(&[Tok::Begin]);
+        line.push(&self.body);
+        line.push(&[Tok::End]);
+        let def_src = to_source(&line.toks).ok_or("definition cannot be rendered")?;
+        if lex_line(&def_src) != line.toks {
+            return Err(format!("model lexer does not reproduce the definition: {def_src}"));
+        }
+        let (def, used) = parse_def(&line.toks[start..]).map_err(|e| format!("{e:?} in {def_src}"))?;
+        if start + used != line.toks.len() {
+            return Err(format!("definition ends early: {def_src}"));
+        }
+        // effective delimiters, read back from the model's pattern
+        let mut eff: Vec<Vec<Tok>> = vec![];
+        for p in &def.pattern {
+            match p {
+                Pat::Match => eff.push(vec![]),
+                Pat::Lit(t) => {
+                    if let Some(d) = eff.last_mut() {
+                        d.push(t.clone())
+                    }
+                }
+                Pat::EndMatch => {}
+            }
+        }
+        Ok(SpecInst {
+            name: self.name.clone(),
+            def_src,
+            def,
+            eff_delims: eff,
+            hash_brace: self.hash_brace,
+        })
+    }
+}
+
+/// What running the delivered tokens through the VM's main loop produces: characters are
+/// printed, `{`/`}` open and close groups (`}` at depth 0 is the fatal error "there is no group
+/// to end"), `\x`/`\y` are parameterless macros printing `X`/`Y`.
+#[derive(Debug, PartialEq, Eq, Clone)]
+struct Run {
+    out: String,
+    events: Vec<Ev>,
+    err: Option<String>,
+    depth: i64,
+}
+
+fn exec(first: Ev, toks: &[Tok]) -> Run {
+    let mut r = Run {
+        out: String::new(),
+        events: vec![first],
+        err: None,
+        depth: 0,
+    };
+    for t in toks {
+        match t {
+            Tok::Ch(c) | Tok::Active(c) => r.out.push(*c),
+            Tok::Space => r.out.push(' '),
+            Tok::Param => r.out.push('#'),
+            Tok::Begin => r.depth += 1,
+            Tok::End => {
+                if r.depth == 0 {
+                    r.err = Some("there is no group to end".into());
+                    return r;
+                }
+                r.depth -= 1;
+            }
+            Tok::Cs(n) => {
+                let up = n.to_uppercase();
+                r.events.push((render(std::slice::from_ref(t)), vec![], up.clone()));
+                r.out.push_str(&up);
+            }
+        }
+    }
+    r
+}
+
+fn predict(name: &Tok, def: &MacroDef, stream: &[Tok], rule: TrimRule) -> Option<(Call, Run)> {
+    let call = macro_call(def, stream, rule).ok()?;
+    let first: Ev = (
+        render(std::slice::from_ref(name)),
+        call.args.iter().map(|a| render(a)).collect(),
+        render(&call.expansion),
+    );
+    let mut toks = call.expansion.clone();
+    toks.extend_from_slice(&stream[call.consumed..]);
+    let run = exec(first, &toks);
+    Some((call, run))
+}
+
+const PREAMBLE: &str = "\\def\\x{X}\\def\\y{Y}%";
+
+fn fresh_vm(def_src: &str, obs: &mut Obs) -> Option<Vm> {
+    obs.count("vm_built");
+    let opts = VmOptions {
+        record_macros: true,
+        ..Default::default()
+    };
+    let src = format!("{PREAMBLE}\n{def_src}%");
+    let r = catch(|| {
+        let mut vm = vstate::new_vm(&opts);
+        let o = vstate::run(&mut vm, "def.tex", &src);
+        let out = vstate::take_out(&mut vm);
+        let ev = vstate::take_events(&mut vm);
+        (vm, o, out, ev)
+    });
+    match r {
+        Err(p) => {
+            obs.repo_panic(&p, json!({"source": src}));
+            None
+        }
+        Ok((vm, o, out, ev)) => {
+            if !o.is_ok() || !out.is_empty() || !ev.is_empty() {
+                obs.violation(
+                    "C02:definition-not-silent",
+                    json!({"source": src, "outcome": format!("{o:?}"), "out": out, "events": format!("{ev:?}")}),
+                );
+                return None;
+            }
+            Some(vm)
+        }
+    }
+}
+
+fn observed_events(ev: Vec<Event>) -> Vec<Ev> {
+    ev.into_iter()
+        .map(|e| match e {
+            Event::Macro {
+                name,
+                args,
+                expansion,
+            } => (name, args, expansion),
+            Event::Recovered(t) => ("!recovered".to_string(), vec![t], String::new()),
+            other => ("!event".to_string(), vec![format!("{other:?}")], String::new()),
+        })
+        .collect()
+}
+
+fn is_single_group(a: &[Tok]) -> bool {
+    if a.first() != Some(&Tok::Begin) {
+        return false;
+    }
+    let mut depth = 0i64;
+    for (i, t) in a.iter().enumerate() {
+        match t {
+            Tok::Begin => depth += 1,
+            Tok::End => {
+                depth -= 1;
+                if depth == 0 {
+                    return i + 1 == a.len();
+                }
+            }
+            _ => {}
+        }
+    }
+    false
+}
+
+/// Check one call. `intended[i]` is the argument text generated for parameter i. Returns false
+/// when the VM must not be reused (error, panic).
+#[allow(clippy::too_many_arguments)]
+fn check_call(
+    vm_slot: &mut Option<Vm>,
+    inst: &SpecInst,
+    intended: &[Vec<Tok>],
+    tail_variant: usize,
+    obs: &mut Obs,
+    class: &str,
+) {
+    // ---- build the call line -------------------------------------------------------------
+    let mut line = Line::new();
+    line.push(std::slice::from_ref(&inst.name));
+    if matches!(inst.name, Tok::Active(_)) {
+        line.skip = false;
+    }
+    let prefix: Vec<Tok> = inst
+        .def
+        .pattern
+        .iter()
+        .take_while(|p| matches!(p, Pat::Lit(_)))
+        .filter_map(|p| match p {
+            Pat::Lit(t) => Some(t.clone()),
+            _ => None,
+        })
+        .collect();
+    let has_params = !inst.eff_delims.is_empty();
+    // for a macro without parameters the whole pattern (incl. the `{` of `#{`) is prefix
+    line.push(&prefix);
+    let mut kept_args: Vec<Vec<Tok>> = vec![];
+    for (i, d) in inst.eff_delims.iter().enumerate() {
+        kept_args.push(line.push(&intended[i]));
+        line.push(d);
+    }
+    let call_len = line.toks.len() - 1;
+    let mut tail: Vec<Tok> = vec![];
+    if inst.hash_brace {
+        tail.extend([ch('h'), Tok::End]);
+    }
+    match tail_variant % 3 {
+        0 => tail.push(ch('|')),
+        1 => tail.extend(cat(&[&[ch('|')], &grp(&[ch('k')]), &[cs("y"), ch(';')]])),
+        _ => tail.extend([Tok::Space, ch('|'), cs("y")]),
+    }
+    line.push(&tail);
+    let call_src = match to_source(&line.toks) {
+        Some(s) => s,
+        None => {
+            obs.inconclusive("call line cannot be rendered");
+            return;
+        }
+    };
+    if lex_line(&call_src) != line.toks {
+        obs.inconclusive(format!("model lexer does not reproduce the call line {call_src}"));
+        return;
+    }
+    let stream = &line.toks[1..];
+
+    // ---- stay inside the quantifier: the call must bind exactly the intended arguments ----
+    let decl = declarative_call_spans(&inst.def, stream);
+    let tex = macro_call(&inst.def, stream, TrimRule::Tex);
+    let (decl_call, spans) = match decl {
+        Ok(x) => x,
+        Err(_) => {
+            obs.skip("call-not-matching");
+            return;
+        }
+    };
+    let mut in_domain = decl_call.consumed == call_len && spans.len() == kept_args.len();
+    if in_domain {
+        for (i, (a, b)) in spans.iter().enumerate() {
+            let want: &[Tok] = if inst.eff_delims[i].is_empty() {
+                let lead = kept_args[i].iter().take_while(|t| **t == Tok::Space).count();
+                &kept_args[i][lead..]
+            } else {
+                &kept_args[i]
+            };
+            if &stream[*a..*b] != want {
+                in_domain = false;
+            }
+        }
+    }
+    if !in_domain {
+        obs.skip("argument-contains-delimiter-or-is-not-one-item");
+        return;
+    }
+    match &tex {
+        Ok(c) if *c == decl_call => {}
+        _ => {
+            obs.inconclusive(format!(
+                "two formulations of argument binding disagree on {} / {}",
+                inst.def_src, call_src
+            ));
+            return;
+        }
+    }
+
+    // ---- predictions -----------------------------------------------------------------------
+    let (call, want) = match predict(&inst.name, &inst.def, stream, TrimRule::Tex) {
+        Some(x) => x,
+        None => {
+            obs.inconclusive("model failed after validation");
+            return;
+        }
+    };
+    if want.err.is_some() || want.depth != 0 {
+        obs.inconclusive(format!("generated call is not balanced: {call_src}"));
+        return;
+    }
+
+    // ---- run the real code -----------------------------------------------------------------
+    if vm_slot.is_none() {
+        *vm_slot = fresh_vm(&inst.def_src, obs);
+    }
+    let Some(vm) = vm_slot.as_mut() else { return };
+    let src = format!("{call_src}%");
+    let res = catch(|| {
+        let o = vstate::run(vm, "call.tex", &src);
+        let out = vstate::take_out(vm);
+        let ev = vstate::take_events(vm);
+        let depth = vm.verif_snapshot().commands_groups as i64;
+        (o, out, ev, depth)
+    });
+    let (o, out, ev, depth) = match res {
+        Ok(x) => x,
+        Err(p) => {
+            obs.repo_panic(&p, json!({"def": inst.def_src, "call": call_src}));
+            *vm_slot = None;
+            return;
+        }
+    };
+    let got = Run {
+        out,
+        events: observed_events(ev),
+        err: match &o {
+            Outcome::Ok => None,
+            Outcome::Err { title, .. } => Some(title.clone()),
+        },
+        depth,
+    };
+    if got.err.is_some() || got.depth != 0 {
+        *vm_slot = None; // leftover input / open groups: do not reuse
+        obs.count("vm_dropped_after_error");
+    }
+
+    // ---- what was observed (evidence) ------------------------------------------------------
+    obs.count("calls");
+    obs.count(&format!("calls:{class}"));
+    obs.count(&format!("calls:params={}", inst.eff_delims.len()));
+    obs.add("events_observed", got.events.len() as u64);
+    obs.add("output_chars_observed", got.out.chars().count() as u64);
+    let mut trigger = false;
+    for (i, a) in kept_args.iter().enumerate() {
+        let delimited = !inst.eff_delims[i].is_empty();
+        let single = is_single_group(if delimited {
+            a
+        } else {
+            let lead = a.iter().take_while(|t| **t == Tok::Space).count();
+            &a[lead..]
+        });
+        match (delimited, single) {
+            (true, true) => obs.count("arg:delimited:single-group-stripped"),
+            (true, false) => {
+                if a.len() >= 2 && a[0] == Tok::Begin && a[a.len() - 1] == Tok::End {
+                    obs.count("arg:delimited:several-groups-not-stripped");
+                    trigger = true;
+                } else if a.is_empty() {
+                    obs.count("arg:delimited:empty");
+                } else if a.contains(&Tok::Begin) {
+                    obs.count("arg:delimited:mixed-with-group");
+                } else {
+                    obs.count("arg:delimited:plain");
+                }
+                if a.first() == Some(&Tok::Space) {
+                    obs.count("arg:delimited:leading-space-kept");
+                }
+            }
+            (false, true) => obs.count("arg:undelimited:group"),
+            (false, false) => obs.count("arg:undelimited:token"),
+        }
+        if !delimited && a.first() == Some(&Tok::Space) {
+            obs.count("arg:undelimited:leading-space-skipped");
+        }
+        if delimited {
+            let d = &inst.eff_delims[i];
+            if d.len() >= 2 && !a.is_empty() && a[a.len() - 1] == d[0] {
+                obs.count("arg:delimited:ends-with-partial-delimiter");
+            }
+            let mut depth = 0;
+            for (j, t) in a.iter().enumerate() {
+                match t {
+                    Tok::Begin => depth += 1,
+                    Tok::End => depth -= 1,
+                    _ => {}
+                }
+                if depth > 0 && a[j..].starts_with(d) {
+                    obs.count("arg:delimited:delimiter-inside-braces");
+                    break;
+                }
+            }
+        }
+    }
+    if inst.hash_brace {
+        obs.count("calls:hash-brace");
+    }
+    if !prefix.is_empty() && has_params {
+        obs.count("calls:with-prefix");
+    }
+    obs.nontrivial(&(&inst.def_src, &call_src));
+    if obs.wants_sample() {
+        obs.sample(json!({
+            "def": inst.def_src, "call": call_src,
+            "observed": {"events": got.events, "out": got.out, "error": got.err},
+            "model": {"args": call.args.iter().map(|a| render(a)).collect::<Vec<_>>(),
+                      "expansion": render(&call.expansion), "out": want.out},
+        }));
+    }
+
+    // ---- verdict ---------------------------------------------------------------------------
+    if got == want {
+        return;
+    }
+    let detail = |dev: Option<&Run>| {
+        json!({
+            "def": inst.def_src, "call": call_src,
+            "observed": {"events": got.events, "out": got.out, "error": got.err, "group_depth": got.depth},
+            "tex": {"events": want.events, "out": want.out, "error": want.err, "group_depth": want.depth},
+            "deviation_model": dev.map(|d| json!({"events": d.events, "out": d.out, "error": d.err})),
+        })
+    };
+    if trigger {
+        if let Some((_, dev)) = predict(&inst.name, &inst.def, stream, TrimRule::FirstLastOfDelimited) {
+            if got == dev {
+                obs.known(FINDING_TRIM, detail(Some(&dev)));
+                return;
+            }
+        }
+    }
+    // classify the first difference for a stable signature
+    let what = if got.events.first() != want.events.first() {
+        match (got.events.first(), want.events.first()) {
+            (Some(g), Some(w)) if g.1 != w.1 => "bound-arguments-differ",
+            (Some(_), Some(_)) => "expansion-differs",
+            (None, _) => "macro-hook-not-called",
+            _ => "events-differ",
+        }
+    } else if got.events != want.events {
+        "tokens-after-call-changed(events)"
+    } else if got.err != want.err {
+        "unexpected-error"
+    } else if got.out != want.out {
+        "character-stream-differs"
+    } else {
+        "group-depth-differs"
+    };
+    obs.violation(format!("C02:{what}"), detail(None));
+}
+
+// ------------------------------------------------------------------------------------------------
+// enumerated workload
+// ------------------------------------------------------------------------------------------------
+
+const N_BODIES: u64 = 8;
+
+fn body_variant(v: u64, n: usize) -> Vec<Tok> {
+    let p = |i: usize| vec![Tok::Param, ch(char::from(b'0' + i as u8))];
+    let mut b = vec![];
+    match v {
+        0 => {
+            b.push(ch('['));
+            for i in 1..=n {
+                if i > 1 {
+                    b.push(ch('|'));
+                }
+                b.extend(p(i));
+            }
+            b.push(ch(']'));
+        }
+        1 => {
+            for i in (1..=n).rev() {
+                b.extend(p(i));
+            }
+            b.push(ch('/'));
+            if n > 0 {
+                b.extend(p(1));
+            }
+        }
+        2 => {
+            for i in 1..=n {
+                b.push(Tok::Begin);
+                b.extend(p(i));
+            }
+            b.push(ch('c'));
+            for _ in 0..n {
+                b.push(Tok::End);
+            }
+            b.push(ch('x'));
+        }
+        3 => {
+            b.extend([Tok::Param, Tok::Param, ch('[')]);
+            if n > 0 {
+                b.extend(p(1));
+            }
+            b.extend([ch(']'), Tok::Param, Tok::Param, ch('1')]);
+        }
+        4 => {}
+        5 => {
+            for i in 1..=n {
+                b.extend(p(i));
+            }
+        }
+        6 => {
+            b.push(ch('z'));
+            if n > 0 {
+                b.extend(p(n));
+            }
+        }
+        _ => {
+            b.push(cs("y"));
+            if n > 0 {
+                b.extend(p(1));
+            }
+            b.push(Tok::Space);
+            if n > 0 {
+                b.extend(p(n));
+            }
+            b.push(cs("x"));
+        }
+    }
+    b
+}
+
+fn prefix_variant(v: u64) -> Vec<Tok> {
+    match v {
+        0 => vec![],
+        1 => vec![ch('a')],
+        _ => vec![ch('a'), ch('b')],
+    }
+}
+
+const N_DELIM_KINDS: u64 = 5;
+fn delim_kind(k: u64) -> Vec<Tok> {
+    match k {
+        0 => vec![],
+        1 => vec![ch('.')],
+        2 => vec![ch('a'), ch('b')],
+        3 => vec![ch('a'), ch('a'), ch('b')],
+        _ => vec![cs("x")],
+    }
+}
+
+fn similar(t: &Tok) -> Tok {
+    match t {
+        Tok::Ch('.') => ch(','),
+        Tok::Cs(n) if n == "x" => cs("y"),
+        _ => ch('x'),
+    }
+}
+
+const ND: usize = 16;
+const NU: usize = 12;
+const NB: usize = 6;
+const CORE_D: [usize; 8] = [0, 1, 2, 3, 4, 5, 6, 7];
+const CORE_U: [usize; 6] = [0, 1, 2, 4, 5, 7];
+
+/// Argument shapes for a parameter delimited by `d` (effective delimiter, may end with `{`).
+fn delimited_shape(k: usize, d: &[Tok], l: [char; 3]) -> Vec<Tok> {
+    let (x, y, z) = (ch(l[0]), ch(l[1]), ch(l[2]));
+    // the delimiter made brace-balanced, for use inside a group
+    let mut dbal = d.to_vec();
+    if d.last() == Some(&Tok::Begin) {
+        dbal.push(Tok::End);
+    }
+    match k {
+        0 => vec![],
+        1 => vec![x],
+        2 => grp(&[]),
+        3 => grp(&[x]),
+        4 => cat(&[&grp(&[x]), &grp(&[y])]),
+        5 => cat(&[&[x], &grp(&[y])]),
+        6 => cat(&[&grp(&[x]), &[y]]),
+        7 => grp(&grp(&[x])),
+        8 => vec![Tok::Space, x],
+        9 => grp(&dbal),
+        10 => {
+            if d.len() >= 2 {
+                d[..d.len() - 1].to_vec()
+            } else {
+                vec![similar(&d[0])]
+            }
+        }
+        11 => cat(&[&grp(&[x]), &[y], &grp(&[z])]),
+        12 => vec![x, Tok::Space, y],
+        13 => cat(&[&grp(&[x]), &[Tok::Space]]),
+        14 => {
+            if d.len() >= 3 {
+                vec![d[0].clone()]
+            } else if d.len() == 2 {
+                vec![d[0].clone(), d[0].clone()]
+            } else {
+                vec![x.clone(), x]
+            }
+        }
+        _ => cat(&[&[x], &grp(&dbal), &[y]]),
+    }
+}
+
+/// Shapes for the last parameter when it is delimited by the `{` of `#{` alone: no group can
+/// occur at depth 0 of such an argument.
+fn brace_delimited_shape(k: usize, l: [char; 3]) -> Vec<Tok> {
+    let (x, y) = (ch(l[0]), ch(l[1]));
+    match k {
+        0 => vec![],
+        1 => vec![x],
+        2 => vec![x, y],
+        3 => vec![Tok::Space, x],
+        4 => vec![x, Tok::Space, y],
+        _ => vec![cs("y")],
+    }
+}
+
+fn undelimited_shape(k: usize, l: [char; 3]) -> Vec<Tok> {
+    let (x, y, z) = (ch(l[0]), ch(l[1]), ch(l[2]));
+    match k {
+        0 => vec![x],
+        1 => grp(&[]),
+        2 => grp(&[x]),
+        3 => grp(&[x, y]),
+        4 => grp(&grp(&[x])),
+        5 => vec![Tok::Space, x],
+        6 => cat(&[&[Tok::Space], &grp(&[x])]),
+        7 => grp(&[Tok::Space, x]),
+        8 => vec![cs("y")],
+        9 => grp(&cat(&[&[x], &grp(&[y]), &[z]])),
+        10 => grp(&[ch('a'), ch('.'), ch('b')]),
+        _ => grp(&grp(&[])),
+    }
+}
+
+const LETTERS: [[char; 3]; 3] = [['p', 'q', 'r'], ['s', 't', 'u'], ['v', 'w', 'm']];
+
+fn shapes_for(d: &[Tok], core: bool) -> Vec<usize> {
+    if d.is_empty() {
+        if core {
+            CORE_U.to_vec()
+        } else {
+            (0..NU).collect()
+        }
+    } else if d == [Tok::Begin] {
+        (0..NB).collect()
+    } else if core {
+        CORE_D.to_vec()
+    } else {
+        (0..ND).collect()
+    }
+}
+
+fn shape(d: &[Tok], k: usize, l: [char; 3]) -> Vec<Tok> {
+    if d.is_empty() {
+        undelimited_shape(k, l)
+    } else if d == [Tok::Begin] {
+        brace_delimited_shape(k, l)
+    } else {
+        delimited_shape(k, d, l)
+    }
+}
+
+fn run_enum_spec(spec: &Spec, core: bool, salt: u64, obs: &mut Obs, class: &str) {
+    let inst = match spec.instantiate() {
+        Ok(i) => i,
+        Err(e) => {
+            obs.inconclusive(e);
+            return;
+        }
+    };
+    let lists: Vec<Vec<usize>> = inst.eff_delims.iter().map(|d| shapes_for(d, core)).collect();
+    let total: usize = lists.iter().map(|l| l.len()).product();
+    let mut vm: Option<Vm> = None;
+    for t in 0..total {
+        let mut rem = t;
+        let mut intended = vec![];
+        for (i, l) in lists.iter().enumerate() {
+            let k = l[rem % l.len()];
+            rem /= l.len();
+            intended.push(shape(&inst.eff_delims[i], k, LETTERS[i % 3]));
+        }
+        check_call(&mut vm, &inst, &intended, (t as u64 + salt) as usize, obs, class);
+    }
+}
+
+fn def_kw_variant(v: u64) -> Vec<Tok> {
+    match v % 5 {
+        3 => vec![cs("gdef")],
+        _ => vec![cs("def")],
+    }
+}
+
+const ENUM12_CASES: u64 = 3 * 2 * 31 * N_BODIES;
+const ENUM3_CASES: u64 = 3 * 2 * 125 * 2;
+
+fn enum12_spec(idx: u64) -> Spec {
+    let mut i = idx;
+    let body = i % N_BODIES;
+    i /= N_BODIES;
+    let hash = i % 2 == 1;
+    i /= 2;
+    let prefix = i % 3;
+    i /= 3;
+    let delims: Vec<Vec<Tok>> = match i {
+        0 => vec![],
+        1..=5 => vec![delim_kind(i - 1)],
+        _ => {
+            let j = i - 6;
+            vec![delim_kind(j / N_DELIM_KINDS), delim_kind(j % N_DELIM_KINDS)]
+        }
+    };
+    let n = delims.len();
+    Spec {
+        def_kw: def_kw_variant(idx),
+        name: cs("a"),
+        prefix: prefix_variant(prefix),
+        delims,
+        hash_brace: hash,
+        body: body_variant(body, n),
+    }
+}
+
+fn enum3_spec(idx: u64) -> Spec {
+    let mut i = idx;
+    let body = if i % 2 == 0 { 0 } else { 2 };
+    i /= 2;
+    let hash = i % 2 == 1;
+    i /= 2;
+    let prefix = i % 3;
+    i /= 3;
+    let delims = vec![
+        delim_kind(i / 25),
+        delim_kind((i / 5) % 5),
+        delim_kind(i % 5),
+    ];
+    Spec {
+        def_kw: def_kw_variant(idx),
+        name: cs("a"),
+        prefix: prefix_variant(prefix),
+        delims,
+        hash_brace: hash,
+        body: body_variant(body, 3),
+    }
+}
+
+// ------------------------------------------------------------------------------------------------
+// random workload
+// ------------------------------------------------------------------------------------------------
+
+fn random_delim_tok(rng: &mut Rng) -> Tok {
+    match rng.below(10) {
+        0 | 1 => ch('a'),
+        2 | 3 => ch('b'),
+        4 => ch('.'),
+        5 => ch(','),
+        6 => cs("x"),
+        7 => cs("y"),
+        8 => Tok::Space,
+        _ => ch(':'),
+    }
+}
+
+fn random_body(rng: &mut Rng, n: usize, depth: u32) -> Vec<Tok> {
+    let len = rng.below(if depth == 0 { 13 } else { 5 });
+    let mut b = vec![];
+    for _ in 0..len {
+        match rng.below(20) {
+            0..=7 if n > 0 => {
+                let k = 1 + rng.usize_below(n);
+                b.extend([Tok::Param, ch(char::from(b'0' + k as u8))]);
+            }
+            8 => b.extend([Tok::Param, Tok::Param]),
+            9 | 10 if depth < 3 => b.extend(grp(&random_body(rng, n, depth + 1))),
+            11 => b.push(cs(if rng.coin() { "x" } else { "y" })),
+            12 => b.push(Tok::Space),
+            13 => b.push(ch(*rng.pick(&['1', '2', '9']))),
+            _ => b.push(ch(*rng.pick(&['c', 'd', 'e', 'f', 'g', '-', '[', ']', 'a', 'b', '.']))),
+        }
+    }
+    b
+}
+
+fn random_balanced(rng: &mut Rng, d: &[Tok], depth: u32) -> Vec<Tok> {
+    let items = rng.below(if depth == 0 { 5 } else { 4 });
+    let mut a = vec![];
+    for _ in 0..items {
+        match rng.below(16) {
+            0..=3 => a.push(ch(*rng.pick(&['a', 'b', 'p', 'q', 'c']))),
+            4 => a.push(ch(*rng.pick(&['.', ',', ':']))),
+            5 => a.push(Tok::Space),
+            6 => a.push(cs(if rng.coin() { "x" } else { "y" })),
+            7..=10 if depth < 3 => {
+                let inner = random_balanced(rng, d, depth + 1);
+                a.extend(grp(&inner));
+            }
+            11 if depth > 0 && !d.is_empty() => {
+                // the delimiter itself, legal inside braces
+                a.extend(d.iter().cloned());
+                if d.last() == Some(&Tok::Begin) {
+                    a.push(Tok::End);
+                }
+            }
+            12 if !d.is_empty() => {
+                // a proper prefix of the delimiter
+                let k = rng.usize_below(d.len());
+                a.extend(d[..k].iter().cloned());
+            }
+            _ => a.push(ch(*rng.pick(&['r', 's', 't', 'a', 'b']))),
+        }
+    }
+    a
+}
+
+fn random_arg(rng: &mut Rng, d: &[Tok]) -> Vec<Tok> {
+    let l = [
+        *rng.pick(&['p', 'q', 'a']),
+        *rng.pick(&['r', 's', 'b']),
+        *rng.pick(&['t', 'u', 'a']),
+    ];
+    if d.is_empty() {
+        match rng.below(10) {
+            0..=2 => undelimited_shape(rng.usize_below(NU), l),
+            3..=5 => vec![match rng.below(4) {
+                0 => ch('.'),
+                1 => cs("x"),
+                _ => ch(l[0]),
+            }],
+            _ => {
+                let mut a = vec![];
+                if rng.chance(1, 4) {
+                    a.push(Tok::Space);
+                }
+                a.extend(grp(&random_balanced(rng, d, 1)));
+                a
+            }
+        }
+    } else if d == [Tok::Begin] {
+        brace_delimited_shape(rng.usize_below(NB), l)
+    } else if rng.chance(1, 3) {
+        delimited_shape(rng.usize_below(ND), d, l)
+    } else {
+        random_balanced(rng, d, 0)
+    }
+}
+
+/// Would a parameter delimited by `d` (empty = undelimited), taken in isolation, bind exactly `a`?
+/// (Pre-filter for the random generator; the complete call is validated again in `check_call`.)
+fn arg_valid_alone(d: &[Tok], a: &[Tok]) -> bool {
+    let mut pattern = vec![Pat::Match];
+    pattern.extend(d.iter().cloned().map(Pat::Lit));
+    pattern.push(Pat::EndMatch);
+    let def = MacroDef {
+        pattern,
+        body: vec![],
+        nparams: 1,
+    };
+    let mut stream = a.to_vec();
+    stream.extend(d.iter().cloned());
+    stream.push(ch('|'));
+    match declarative_call_spans(&def, &stream) {
+        Ok((c, spans)) => {
+            let lead = if d.is_empty() {
+                a.iter().take_while(|t| **t == Tok::Space).count()
+            } else {
+                0
+            };
+            c.consumed == a.len() + d.len() && spans == vec![(lead, a.len())]
+        }
+        Err(_) => false,
+    }
+}
+
+fn random_spec(rng: &mut Rng) -> Spec {
+    let n = [0usize, 1, 2, 3, 4, 5, 6, 7, 8, 9][rng.weighted(&[1, 3, 3, 3, 2, 2, 1, 1, 1, 4])];
+    let plen = rng.weighted(&[5, 3, 2, 1]);
+    let prefix: Vec<Tok> = (0..plen).map(|_| random_delim_tok(rng)).collect();
+    let mut delims = vec![];
+    for _ in 0..n {
+        let dl = rng.weighted(&[4, 3, 2, 1]);
+        delims.push((0..dl).map(|_| random_delim_tok(rng)).collect::<Vec<Tok>>());
+    }
+    let def_kw = match rng.below(20) {
+        0..=11 => vec![cs("def")],
+        12..=16 => vec![cs("gdef")],
+        17 | 18 => vec![cs("long"), cs("def")],
+        _ => vec![cs("global"), cs("def")],
+    };
+    let name = match rng.below(20) {
+        0 | 1 => Tok::Active('~'),
+        2 => cs("mac"),
+        _ => cs("a"),
+    };
+    Spec {
+        def_kw,
+        name,
+        prefix,
+        delims,
+        hash_brace: rng.chance(1, 4),
+        body: random_body(rng, n, 0),
+    }
+}
+
+// ------------------------------------------------------------------------------------------------
+// calibration: the model against the repository's own unit-test table
+// ------------------------------------------------------------------------------------------------
+
+/// (name, input, expected tokens) transcribed from the `expansion_equality_tests` of
+/// crates/texlang-stdlib/src/def.rs (TeXbook exercises 20.1-20.6 among them) and the
+/// `\expandafter`-free macro cases of crates/texlang-stdlib/src/expansion.rs.
+const CALIBRATION: &[(&str, &str, &str)] = &[
+    ("output_is_correct", r"\def\A{abc}\A", "abc"),
+    ("output_twice", r"\def\A{abc}\A\A", "abcabc"),
+    ("one_undelimited_parameter", r"\def\A#1{a-#1-b}\A1", "a-1-b"),
+    ("one_undelimited_parameter_multiple_times", r"\def\A#1{#1 #1 #1}\A1", "1 1 1"),
+    ("one_undelimited_parameter_multiple_tokens", r"\def\A#1{a-#1-b}\A{123}", "a-123-b"),
+    ("two_undelimited_parameters", r"\def\A#1#2{#2-#1}\A56", "6-5"),
+    ("two_undelimited_parameters_multiple_token_inputs", r"\def\A#1#2{#2-#1}\A{abc}{xyz}", "xyz-abc"),
+    ("consume_prefix_correctly", r"\def\A fgh{567}\A fghi", "567i"),
+    ("one_undelimited_parameter_with_prefix", r"\def\A abc#1{y#1z}\A abcdefg", "ydzefg"),
+    ("one_delimited_parameter", r"\def\A #1xxx{y#1z}\A abcxxx", "yabcz"),
+    ("one_delimited_parameter_empty", r"\def\A #1xxx{y#1z}\A xxx", "yz"),
+    ("one_delimited_parameter_with_scope", r"\def\A #1xxx{#1}\A abc{123xxx}xxx", "abc{123xxx}"),
+    ("one_delimited_parameter_with_prefix", r"\def\A a#1c{x#1y}\A abcdef", "xbydef"),
+    ("two_delimited_parameters_with_prefix", r"\def\A a#1c#2e{x#2y#1z}\A abcdef", "xdybzf"),
+    ("one_delimited_parameter_grouped_value", r"\def\A #1c{x#1y}\A {Hello}c", "xHelloy"),
+    ("parameter_brace_special_case", r"\def\A #{Mint says }\A{hello}", "Mint says {hello}"),
+    (
+        "texbook_exercise_20_2",
+        r"\def\a{\b}\def\b{A\def\a{B\def\a{C\def\a{\b}}}}\def\puzzle{\a\a\a\a\a}\puzzle",
+        "ABCAB",
+    ),
+    ("texbook_exercise_20_3_part_1", r"\def\row#1{(#1_1,\ldots,#1_n)}\row{\bf x}", r"(\bf x_1,\ldots,\bf x_n)"),
+    ("texbook_exercise_20_3_part_2", r"\def\row#1{(#1_1,\ldots,#1_n)}\row{{\bf x}}", r"({\bf x}_1,\ldots,{\bf x}_n)"),
+    ("texbook_exercise_20_5", r"\def\a#1{\def\b##1{##1#1}}\a!\b{Hello}", "Hello!"),
+    ("texbook_exercise_20_5_example_below", r"\def\a#1#{\hbox to #1}\a3pt{x}", r"\hbox to 3pt{x}"),
+    ("texbook_exercise_20_6", r"\def\b#1{And #1, World!}\def\a#{\b}\a{Hello}", "And Hello, World!"),
+    ("space_in_undelimited_param_1", r"\def\Hello#1#2{Hello-#1-#2-World}\Hello A B C", "Hello-A-B-World C"),
+    ("space_in_undelimited_param_2", r"\def\Space{ }\def\Hello#1#2{Hello-#1-#2-World}\Hello\Space B C", "Hello- -B-World C"),
+    ("expandafter_and_noexpand_1", r"\def\a#1\b{Hello '#1'}\def\b{World}\a\b", "Hello ''"),
+    ("expandafter_and_noexpand_2", r"\def\a#1\b{Hello '#1'}\def\b{World}\a\b\b", "Hello ''World"),
+    // TeXbook p.203
+    (
+        "texbook_p203",
+        r"\def\cs AB#1#2C$#3\$ {#3{ab#1}#1 c##\x #2}\cs AB {\Look}C${And\$ }{look}\$ 5",
+        r"{And\$ }{look}{ab\Look}\Look\space c#\x5",
+    ),
+];
 
 impl Monitor for M {
     fn id(&self) -> &'static str {
         "C02"
     }
+
     fn rule(&self) -> String {
-        "not built yet".into()
+        "A case is one \\def/\\gdef (prefix x up to 9 parameters, each undelimited or delimited, optional #{, \
+         replacement text over literals, #n, ##, nested groups) run in one VM with many calls; each call is one \
+         evaluation. enum12: every spec with prefix in {e,a,ab}, 0-2 parameters, delimiter in {none, ., ab, aab, \\x}, \
+         optional #{, 8 replacement texts, times every tuple of the 12 (undelimited) / 16 (delimited) argument shapes \
+         (empty, token, {}, {x}, {x}{y}, x{y}, {x}y, {{x}}, leading/trailing space, delimiter inside braces, partial \
+         delimiter prefixes such as aa|aab, ...). enum3: the same with 3 parameters and the 8/6 core shapes. random: \
+         random specs with 0-9 parameters, random delimiters (also spaces and control sequences) and random balanced \
+         arguments. A call counts only if both formulations of the model bind exactly the generated arguments (no \
+         delimiter at depth 0); it is non-trivial and distinct by (definition text, call text)."
+            .into()
     }
+
     fn assumptions(&self) -> Vec<String> {
-        vec![]
+        vec![
+            "Oracle = own transcription of TeX §473-§477/§389-§399 (vmodels::macrocall), calibrated against the def.rs unit-test table and TeXbook p.203; a declarative second formulation must agree on every call.".into(),
+            "Arguments never contain the delimiter at depth 0, \\par or unbalanced braces; prefix always matches (the property's quantifier).".into(),
+            "Braces are not visible in the character stream (the VM opens/closes groups); they are checked through the expansion reported by post_macro_expansion_hook, the absence of 'no group to end' and the group depth after the call.".into(),
+            "\\x and \\y are parameterless macros printing X and Y; fixed plain catcodes; every source line ends with %.".into(),
+        ]
     }
-    fn phases(&self, _tier: Tier) -> Vec<Phase> {
-        vec![]
+
+    fn phases(&self, tier: Tier) -> Vec<Phase> {
+        let mut v = vec![Phase::new("enum12", ENUM12_CASES).batch(8).exhaustive(
+            "all definitions with prefix in {empty,a,ab}, 0-2 parameters each delimited by one of {none, ., ab, aab, \\x}, optional #{, 8 replacement texts, called with every tuple of the 12/16 enumerated argument shapes",
+        )];
+        match tier {
+            Tier::Quick => v.push(Phase::new("enum3", ENUM3_CASES / 10).batch(4)),
+            Tier::Thorough => v.push(Phase::new("enum3", ENUM3_CASES).batch(4).exhaustive(
+                "all definitions with prefix in {empty,a,ab}, 3 parameters each delimited by one of {none, ., ab, aab, \\x}, optional #{, 2 replacement texts, called with every triple of the 8/6 core argument shapes",
+            )),
+        }
+        v.push(Phase::new("random", tier.pick(15_000, 1_000_000)).batch(64));
+        v
     }
-    fn run_case(&self, _phase: &str, _idx: u64, _rng: &mut Rng, _obs: &mut Obs) {}
+
+    fn floors(&self, tier: Tier) -> Vec<(&'static str, u64)> {
+        let s = tier.pick(1, 4);
+        vec![
+            ("calls", 150_000 * s),
+            ("calls:enum12", 100_000),
+            ("calls:random", 20_000 * s),
+            ("calls:params=9", 500 * s),
+            ("calls:hash-brace", 20_000),
+            ("calls:with-prefix", 20_000),
+            ("arg:delimited:single-group-stripped", 10_000),
+            ("arg:delimited:several-groups-not-stripped", 10_000),
+            ("arg:delimited:mixed-with-group", 10_000),
+            ("arg:delimited:empty", 5_000),
+            ("arg:delimited:leading-space-kept", 2_000),
+            ("arg:delimited:ends-with-partial-delimiter", 5_000),
+            ("arg:delimited:delimiter-inside-braces", 5_000),
+            ("arg:undelimited:group", 10_000),
+            ("arg:undelimited:token", 10_000),
+            ("arg:undelimited:leading-space-skipped", 2_000),
+            ("events_observed", 200_000),
+            ("calibration_cases_agreeing", CALIBRATION.len() as u64),
+        ]
+    }
+
+    fn calibrate(&self, obs: &mut Obs) {
+        for (name, input, want) in CALIBRATION {
+            let got = expand_all(&lex_line(input), 100_000);
+            let want_toks: Vec<Tok> = lex_line(want)
+                .into_iter()
+                .map(|t| if t == cs("space") { Tok::Space } else { t })
+                .collect();
+            match got {
+                Ok(g) if g == want_toks => obs.count("calibration_cases_agreeing"),
+                other => obs.inconclusive(format!(
+                    "calibration: model disagrees with repo unit test {name}: got {:?}, want {}",
+                    other.map(|g| render(&g)),
+                    render(&want_toks)
+                )),
+            }
+        }
+    }
+
+    fn run_case(&self, phase: &str, idx: u64, rng: &mut Rng, obs: &mut Obs) {
+        match phase {
+            "enum12" => run_enum_spec(&enum12_spec(idx), false, idx, obs, "enum12"),
+            "enum3" => {
+                let real = if obs.tier == Tier::Quick { idx * 10 + (obs.seed % 10) } else { idx };
+                run_enum_spec(&enum3_spec(real % ENUM3_CASES), true, idx, obs, "enum3")
+            }
+            "random" => {
+                let spec = random_spec(rng);
+                let inst = match spec.instantiate() {
+                    Ok(i) => i,
+                    Err(e) => {
+                        // e.g. a delimiter that starts with a space directly after the macro name
+                        // is dropped by the lexer and the definition is a different one: still fine,
+                        // but an unrenderable definition is a generator problem
+                        obs.inconclusive(e);
+                        return;
+                    }
+                };
+                let mut vm: Option<Vm> = None;
+                for c in 0..4 {
+                    let mut intended: Vec<Vec<Tok>> = vec![];
+                    for d in &inst.eff_delims {
+                        let mut a = random_arg(rng, d);
+                        let mut tries = 0;
+                        while !arg_valid_alone(d, &a) && tries < 8 {
+                            a = random_arg(rng, d);
+                            tries += 1;
+                        }
+                        if !arg_valid_alone(d, &a) {
+                            obs.count("random:argument-replaced-by-fallback");
+                            a = if d.is_empty() { vec![ch('p')] } else { vec![] };
+                        }
+                        intended.push(a);
+                    }
+                    check_call(&mut vm, &inst, &intended, c + rng.usize_below(3), obs, "random");
+                }
+            }
+            _ => obs.inconclusive(format!("unknown phase {phase}")),
+        }
+    }
 }
